@@ -19,6 +19,8 @@ import os
 
 from vlib.core import run_cmd, VERIF
 from vlib.build import BuildError
+from tools.gen import parse as gen_parse
+from tools.gen.csrc import ExtractError
 
 _spec = importlib.util.spec_from_file_location("c11gen", os.path.join(VERIF, "harness/C11/gen.py"))
 G = importlib.util.module_from_spec(_spec)
@@ -28,11 +30,14 @@ THEOREMS = [
     "JanetModel.Props.C11.consume_total",
     "JanetModel.Props.C11.chunk_independent",
     "JanetModel.Props.C11.chunk_independent_events",
+    "JanetModel.Props.C11.chunk_independent_many",
     "JanetModel.Props.C11.clone_independent",
-    "JanetModel.Props.C11.status_produce_pure",
-    "JanetModel.Props.C11.position_function_of_bytes",
-    "JanetModel.Props.C11.escape_roundtrip",
-    "JanetModel.Props.C11.jdn_roundtrip_partial",
+    "JanetModel.Props.C11.clone_copies_every_field",
+    "JanetModel.Props.C11.status_produce_pure_partial",
+    "JanetModel.Props.C11.produce_touches_only_queue",
+    "JanetModel.Props.C11.flush_frames_in_bounds",
+    "JanetModel.Props.C11.takeError_frames_in_bounds",
+    "JanetModel.Props.C11.advancePos_is_posStep",
 ]
 ENV = dict(os.environ, ASAN_OPTIONS="detect_leaks=0:abort_on_error=0", UBSAN_OPTIONS="print_stacktrace=1")
 BAD_MARKS = ("PANIC", "SECOND-ERROR", "BADCOUNT", "SHORT", "NOTNIL", "BADWRAP", "NOT-A-STRING", "BADOP", "bad-op")
@@ -304,6 +309,16 @@ def run(ctx, replay_lines=None):
     quick = ctx.tier == "quick"
     broken = []
     have_lean = os.path.exists(os.path.join(VERIF, "lean/JanetModel/Props/C11.lean")) and os.path.exists(os.path.join(VERIF, "lean/JanetModel/Parse/Model.lean"))
+    # (A) regenerate the tables / shapes the theorems hinge on
+    try:
+        ctx.build.boot()
+        ctx.gen("Parse.lean", gen_parse.render(ctx.build.tree))
+    except ExtractError as e:
+        broken.append("translator tools/gen/parse.py: %s" % e)
+        ctx.broken.append(broken[-1])
+    except BuildError as e:
+        ctx.violation("build-failed", {"kind": "build", "error": str(e)}, found=False, what="tree does not build")
+        return ctx.finish("proof", {"evaluations": 0, "distinct_nontrivial": 0, "rule": "n/a", "samples": []})
     # (B,C) kernel check + audit
     if have_lean:
         broken += ctx.obligations("JanetModel.Props.C11", THEOREMS)
@@ -386,10 +401,11 @@ def run(ctx, replay_lines=None):
     for b in range(256):
         terms.append((["s" + bytes([b]).hex()], False))
         terms.append((["b" + bytes([b, 0x30, b]).hex()], False))
+    import struct
     for bits in G.BOUNDARY_DOUBLES:
-        terms.append((["n%016x:x" % bits], False))
+        terms.append((["n%016x:%s" % (bits, "%.17g" % struct.unpack("<d", struct.pack("<Q", bits))[0])], False))
     for bits in G.BAD_DOUBLES:
-        terms.append((["n%016x:x" % bits], True))
+        terms.append((["n%016x:%s" % (bits, "%.17g" % struct.unpack("<d", struct.pack("<Q", bits))[0])], True))
     for _ in range(3000 if quick else 60000):
         tricky = rrng.chance(1, 4)
         terms.append((G.value_term(rrng, rrng.range(0, 4), tricky), tricky))
